@@ -8,8 +8,13 @@ import H3.Gen.HuffEnc
     byte parts of `HPACK_STRING` (`H3.Gen.HuffEnc.raw`) with `ensure_free_space`/`write_bits`.
 
     Bytes are `Nat`s (`< 256` for well-formed input).  `u8`/`u16` truncations are written as
-    `% 256` / `% 65536`; `u32` positions are `Nat`s — they stay below `8·len + 16`, so they do not
-    wrap for inputs shorter than 2^28 bytes (assumption recorded with the property).
+    `% 256` / `% 65536`; `u32` positions are `Nat`s.  That they do not wrap is a theorem, not an
+    assumption: the section "machine arithmetic made explicit" below repeats the decoder with every
+    `u32` / `u8` / `u16` operation and every indexing checked (`hdecodeC`, `none` = an operation
+    overflows), `C15_huffman_positions_fit` proves that for inputs with `8·len + 8 < 2^32` nothing
+    overflows and the answers are those of the unchecked functions, and `prefix_string::decode`
+    refuses longer Huffman literals before the decoder sees them (the repair of D-06u;
+    `H3.PrefixString.hugeHuffman`).
 
     D-15.  `check_eof` is reached when the `lookup` bits of the *current level* are not there and
     judges only the bits from that level's start to the end of the input.  Bits of the
@@ -43,8 +48,8 @@ def BitWindow.endPos (w : BitWindow) : Nat := 8 * w.byte + w.bit + w.count
 /-! ### decode.rs -/
 
 /-- `read_bits(src, byte_offset, bit_offset, len)`; `none` is `Err(())`.  The two indexings are
-    in range whenever the guard passes (`readBits_index_ok` in the lemmas), `getD` never
-    yields its default. -/
+    in range whenever the guard passes (`readBitsC` below indexes with `[·]?`;
+    `H3.Huffman.readBitsC_eq`), `getD` never yields its default. -/
 def readBits (src : List Nat) (byteOffset bitOffset len : Nat) : Option Nat :=
   if len = 0 ∨ len > 8 ∨ src.length * 8 < byteOffset * 8 + bitOffset + len then none
   else
@@ -142,6 +147,149 @@ def lax (input : List Nat) : Bool :=
   match hdecodeX input with
   | .ok (_, l) => l
   | .error _ => false
+
+/-! ### decode.rs / bitwin.rs once more, machine arithmetic made explicit
+
+    The functions above with every operation of the Rust code that can go wrong written out: `+` and `*`
+    on `u32` (`BitWindow`'s fields, the parameters of `read_bits`) answer `none` when the result does not
+    fit 32 bits, `-` when it would go below zero, a shift when its amount reaches the width of the shifted
+    type (`u8`: 8, `u16`: 16), `src[i]` when `i` is out of range, `src.len() as u32` when the cast loses
+    bits.  `none` is a panic in a build with overflow checks and a wrapped value (a wrong comparison)
+    in a build without.  Nothing else differs from the functions above. -/
+
+/-- `a + b` on `u32` -/
+def add32 (a b : Nat) : Option Nat := if a + b < 2 ^ 32 then some (a + b) else none
+/-- `a * b` on `u32` -/
+def mul32 (a b : Nat) : Option Nat := if a * b < 2 ^ 32 then some (a * b) else none
+/-- `a - b` on an unsigned type -/
+def subU (a b : Nat) : Option Nat := if b ≤ a then some (a - b) else none
+
+/-- `BitWindow::forwards` -/
+def BitWindow.forwardsC (w : BitWindow) (step : Nat) : Option BitWindow :=
+  match add32 w.bit w.count with                       -- self.bit += self.count
+  | none => none
+  | some bit =>
+    match add32 w.byte (bit / 8) with                  -- self.byte += self.bit / 8
+    | none => none
+    | some byte => some { byte := byte, bit := bit % 8, count := step }
+
+/-- `BitWindow::opposite_bit_window` -/
+def BitWindow.oppositeC (w : BitWindow) : Option BitWindow :=
+  match subU 8 (w.bit % 8) with                        -- 8 - (self.bit % 8)
+  | none => none
+  | some count => some { byte := w.byte, bit := w.bit, count := count }
+
+/-- the two arms of `read_bits` behind its guard and the reduction of `bit_offset` -/
+def readBitsArmsC (src : List Nat) (byteOffset bitOffset len : Nat) : Option Nat :=
+  match add32 bitOffset len with                       -- bit_offset + len <= 8
+  | none => none
+  | some e =>
+    if e ≤ 8 then
+      match src[byteOffset]?, subU 8 len with          -- (src[byte_offset] << bit_offset) >> (8 - len)
+      | some x, some sh =>
+        if bitOffset < 8 ∧ sh < 8 then some (((x <<< bitOffset) % 256) >>> sh) else none
+      | _, _ => none
+    else
+      match src[byteOffset]?, src[byteOffset + 1]?, subU 16 len with
+      | some x, some y, some sh =>
+        let result := (x <<< 8) ||| y                  -- (src[..] as u16) << 8 | src[.. + 1] as u16
+        if bitOffset < 16 ∧ sh < 16 then some ((((result <<< bitOffset) % 65536) >>> sh) % 256) else none
+      | _, _, _ => none
+
+/-- `read_bits`; outer `none`: an operation overflows; `some none`: `Err(())` -/
+def readBitsC (src : List Nat) (byteOffset bitOffset len : Nat) : Option (Option Nat) :=
+  if len = 0 ∨ len > 8 then some none                  -- `||` short-circuits
+  else if ¬ src.length < 2 ^ 32 then none              -- src.len() as u32
+  else
+    match mul32 src.length 8, mul32 byteOffset 8 with  -- src.len() as u32 * 8, byte_offset * 8
+    | some total, some a =>
+      match add32 a bitOffset with
+      | none => none
+      | some b =>
+        match add32 b len with
+        | none => none
+        | some c =>
+          if total < c then some none
+          else
+            match add32 byteOffset (bitOffset / 8), mul32 (bitOffset / 8) 8 with
+            | some byteOffset', some m =>               -- byte_offset += bit_offset / 8
+              match subU bitOffset m with               -- bit_offset -= (bit_offset / 8) * 8
+              | none => none
+              | some bitOffset' => (readBitsArmsC src byteOffset' bitOffset' len).map some
+            | _, _ => none
+    | _, _ => none
+
+/-- `((2u16 << (side.count - 1)) - 1) as u8` -/
+def eofFillerC (count : Nat) : Option Nat :=
+  match subU count 1 with
+  | none => none
+  | some c1 =>
+    if ¬ c1 < 16 then none
+    else (subU ((2 <<< c1) % 65536) 1).map (· % 256)
+
+/-- `check_eof` -/
+def checkEofC (w : BitWindow) (input : List Nat) : Option (Except Err Unit) :=
+  match add32 w.byte 1 with                            -- (bit_pos.byte + 1) as usize
+  | none => none
+  | some b1 =>
+    if b1 > input.length then some (.ok ())
+    else if b1 = input.length then
+      match w.oppositeC with
+      | none => none
+      | some side =>
+        match readBitsC input side.byte side.bit side.count with
+        | none => none
+        | some none => some (.error (.missingBits side))
+        | some (some rest) =>
+          match eofFillerC side.count with
+          | none => none
+          | some eofFiller =>
+            if (rest &&& eofFiller) = eofFiller then some (.ok ()) else some (.error (.missingBits w))
+    else some (.error (.missingBits w))
+
+mutual
+/-- `HuffmanDecoder::decode_next` -/
+def decodeNextC : Level → BitWindow → List Nat → Option (BitWindow × Step)
+  | .mk lookup table, w, input =>
+    match w.forwardsC lookup with
+    | none => none
+    | some w =>
+      match readBitsC input w.byte w.bit w.count with
+      | none => none
+      | some (some value) => tableGetC table value value w input
+      | some none =>
+        match checkEofC w input with
+        | none => none
+        | some (.ok ()) => some (w, .done)
+        | some (.error e) => some (w, .err e)
+def tableGetC : List Entry → Nat → Nat → BitWindow → List Nat → Option (BitWindow × Step)
+  | [], _, value, w, _ => some (w, .err (.unhandled w value))
+  | e :: _, 0, _, w, input => entryGoC e w input
+  | _ :: es, i+1, value, w, input => tableGetC es i value w input
+def entryGoC : Entry → BitWindow → List Nat → Option (BitWindow × Step)
+  | .sym s, w, _ => some (w, .sym s)
+  | .sub l, w, input => decodeNextC l w input
+end
+
+/-- the loop around `DecodeIter::next` -/
+def decodeAllC (root : Level) : Nat → BitWindow → List Nat → Option (Except Err (List Nat × Bool))
+  | 0, _, _ => some (.error .fuel)
+  | fuel+1, w, input =>
+    match decodeNextC root w input with
+    | none => none
+    | some (w', .sym s) =>
+      match decodeAllC root fuel w' input with
+      | none => none
+      | some (.ok (r, lax)) => some (.ok (s :: r, lax))
+      | some (.error e) => some (.error e)
+    | some (_, .done) => some (.ok ([], !padOK input w.endPos))
+    | some (_, .err e) => some (.error e)
+
+/-- `Vec<u8>::hpack_decode()` collected, every machine operation checked: `none` = one of them overflows
+    (for inputs of 2^29 bytes or more: D-06u), otherwise `some (hdecodeX input)`
+    (`C15_huffman_positions_fit`). -/
+def hdecodeC (input : List Nat) : Option (Except Err (List Nat × Bool)) :=
+  decodeAllC H3.Gen.HuffDec.root (8 * input.length + 1) ⟨0, 0, 0⟩ input
 
 /-! ### encode.rs -/
 
